@@ -356,3 +356,26 @@ M("c16_own_id_consumes_number", "C16", "ak/conn_http.py",
 M("c16_read_before_lock", "C16", "ak/conn_http.py",
   "        with self._reqid_generator_guard:\n            next_req_id = self._cur_req_id\n            self._cur_req_id += 1",
   "        next_req_id = self._cur_req_id\n        with self._reqid_generator_guard:\n            self._cur_req_id = next_req_id + 1")
+
+# ---------------------------------------------------------------- C17
+M("c17_revert_clone_isinstance", "C17", "ak/mcaller_http.py",
+  "        elif not isinstance(http_conn_adapters, (list, tuple)):", "        elif isinstance(http_conn_adapters, (list, tuple)):")
+M("c17_headers_not_copied", "C17", "ak/conn_http.py",
+  "        self.headers = headers.copy() if headers else {}", "        self.headers = headers if headers else {}")
+M("c17_adapters_aliased_with_parent", "C17", "ak/conn_http.py",
+  "        self.adapters = self.own_adapters + self.parent_conn.adapters",
+  "        self.adapters = (self.own_adapters + self.parent_conn.adapters) if self.own_adapters else self.parent_conn.adapters")
+M("c17_response_adapters_forward_order", "C17", "ak/conn_http.py",
+  "        for adapter in adapters[::-1]:\n            ret_val = adapter.process_response(ret_val)",
+  "        for adapter in adapters:\n            ret_val = adapter.process_response(ret_val)")
+M("c17_clone_shares_prefix_cache", "C17", "ak/mcaller_http.py",
+  "        return type(self)(cloned_http_conn)\n",
+  "        res = type(self)(cloned_http_conn)\n        res._mc_conns_by_prefix = self._mc_conns_by_prefix\n        return res\n")
+M("c17_params_dict_updated_in_place", "C17", "ak/conn_http.py",
+  "        if params:\n            path += \"?\" + urlencode(params)",
+  "        if params:\n            params.setdefault('a', 1)\n            path += \"?\" + urlencode(params)")
+M("c17_str_body_json_encoded", "C17", "ak/conn_http.py",
+  "            if isinstance(data, str):\n                str_data = data", "            if isinstance(data, str) and data:\n                str_data = data")
+M("c17_double_slash_kept", "C17", "ak/conn_http.py",
+  "        if suffix_path and suffix_path.startswith('/') and self.prefix.endswith('/'):",
+  "        if suffix_path and suffix_path.startswith('/') and self.prefix.endswith('//'):")
